@@ -70,8 +70,8 @@ def run(chk):
                   isinstance(its[1], Num) and its[1].r == ax_atom('y', Rat.atom('b')) and isinstance(its[2], Obj) and
                   its[2].kind == 'lanes' and its[2].d['r'] == data_atom('z', [Rat.atom('a'), Rat.atom('b')]))
             chk.ob('R4.2', "index_point(a,b) == (x[a], y[b], data[a,b]) (got %r)" % (out,), ok, b['span'], 'index_point2d')
-        except (Unsupported, Diverge) as ex:
-            chk.ob('R4.2', "Interp2D::index_point is plain indexing: %s" % ex, False, ex.where, 'index_point2d')
+        except Exception as ex:
+            chk.ob('R4.2', "Interp2D::index_point is plain indexing: %s" % ex, False, getattr(ex, 'where', ''), 'index_point2d')
     b = anchor(chk, lib, 'interp2d::Interp2D::get_index_left_of', 'R4.2')
     if b is not None:
         m = KModel()
@@ -81,8 +81,11 @@ def run(chk):
             ok = (len(its) == 2 and str(its[0].r) == 'i_x' and str(its[1].r) == 'i_y' and
                   [(a, str(v)) for a, v in m.lookups] == [('x', 'qx'), ('y', 'qy')])
             chk.ob('R4.2', "get_index_left_of(qx,qy) == (lookup of qx in x, lookup of qy in y)", ok, b['span'], 'get_index_left_of2d')
-        except (Unsupported, Diverge) as ex:
-            chk.ob('R4.2', "Interp2D::get_index_left_of: %s" % ex, False, ex.where, 'get_index_left_of2d')
+        except Exception as ex:
+            chk.ob('R4.2', "Interp2D::get_index_left_of: %s" % ex, False, getattr(ex, 'where', ''), 'get_index_left_of2d')
+    # 'the four grid values surrounding the query': the comparison skeleton of the bracket lookup (shared with C11)
+    from . import c11
+    c11.analyse(chk, lib, set_text=False)
     chk.explanation = ("The per-lane value written by the Bilinear strategy is extracted as a rational function of the four corner "
                        "values, the four axis values and the query; substituting a symbolic bilinear function for the data yields "
                        "that function at the query, which fixes formula and wiring (any swap of roles fails it). Over the reals.")
